@@ -334,3 +334,84 @@ def rel(loc):
     """file:line from file:line:col"""
     p = loc.rsplit(":", 1)[0]
     return p
+
+
+# --------------------------------------------------------------------------
+# MIR inlining (so that intra-procedural analyses see through an extracted helper)
+
+
+def _shift_locals(x, off, ret_to=None):
+    """deep copy of a statement / terminator / operand tree with every local index shifted by `off`
+    (callee local 0, the return place, becomes `ret_to` when given)"""
+    if isinstance(x, dict):
+        out = {}
+        for k, v in x.items():
+            if k in ("l", "idx") and isinstance(v, int):
+                out[k] = ret_to if (v == 0 and ret_to is not None and k == "l") else v + off
+            else:
+                out[k] = _shift_locals(v, off, ret_to)
+        return out
+    if isinstance(x, list):
+        return [_shift_locals(v, off, ret_to) for v in x]
+    return x
+
+
+def inline_mir(unit, body, select, max_blocks=80, rounds=2):
+    """A copy of `body` in which calls of the local functions chosen by `select(callee_body)` are replaced by the callee's
+    blocks: parameters become assignments, `return` becomes a jump to the continuation, the return place is the call's
+    destination. Unwind edges are dropped (analyses here use the normal-path CFG)."""
+    import copy
+    j = copy.deepcopy(body.j)
+    mir = j["mir"]
+    for _ in range(rounds):
+        changed = False
+        blocks = mir["blocks"]
+        for bi in range(len(blocks)):
+            blk = blocks[bi]
+            t = blk["t"]
+            if t["k"] != "call" or blk.get("cleanup") or t.get("t") is None:
+                continue
+            cp = callee_path(t)
+            cb = unit.body(cp) if cp else None
+            if cb is None or cb.path == body.path or len(cb.blocks) > max_blocks or not select(cb):
+                continue
+            if len(t["args"]) != len(cb.param_tys):
+                continue
+            loff = len(mir["locals"])
+            boff = len(blocks)
+            dest = t["dest"]
+            ret_to = dest["l"] if not dest["p"] else None
+            for i, ld in enumerate(cb.locals):
+                nl = dict(ld)
+                if nl.get("name"):
+                    nl["name"] = nl["name"] + "@" + cb.path.rsplit("::", 1)[-1]
+                mir["locals"].append(nl)
+            cont = t["t"]
+            # parameter passing
+            for i, a in enumerate(t["args"]):
+                blk["s"].append({"k": "assign", "lhs": {"l": loff + i + 1, "p": []}, "rv": {"k": "use", "op": a}, "loc": t.get("loc"), "exp": False, "inl": cb.path})
+            blk["t"] = {"k": "goto", "t": boff, "loc": t.get("loc"), "exp": t.get("exp", False)}
+            for cblk in cb.blocks:
+                nb = {"s": _shift_locals(cblk["s"], loff, ret_to), "cleanup": cblk.get("cleanup", False), "inl": cb.path}
+                ct = _shift_locals(cblk["t"], loff, ret_to)
+                k = ct["k"]
+                if k == "return":
+                    ct = {"k": "goto", "t": cont, "loc": ct.get("loc"), "exp": ct.get("exp", False)}
+                    if ret_to is None:
+                        nb["s"].append({"k": "assign", "lhs": dest, "rv": {"k": "use", "op": {"k": "move", "pl": {"l": loff, "p": []}}}, "loc": t.get("loc"), "exp": False})
+                else:
+                    if isinstance(ct.get("t"), int):
+                        ct["t"] += boff
+                    if "unwind" in ct:
+                        ct["unwind"] = None
+                    if "otherwise" in ct and isinstance(ct["otherwise"], int):
+                        ct["otherwise"] += boff
+                    if "vals" in ct:
+                        ct["vals"] = [[v, tg + boff] for v, tg in ct["vals"]]
+                nb["t"] = ct
+                blocks.append(nb)
+            changed = True
+        if not changed:
+            break
+    nb_ = Body(unit, j)
+    return nb_
